@@ -74,6 +74,8 @@ pub enum Sink {
     Downcast,
     /// `downcast_ref::<T>()` read, then handle dropped
     DowncastRef,
+    /// `unsafe downcast_unchecked::<T>()` (no type test), value compared, then dropped
+    DowncastUnchecked,
     /// `downcast_mut` + in-place mutation, then moved into B
     MutMoveB,
     /// erased push into B
@@ -92,7 +94,7 @@ pub enum Sink {
 impl Sink {
     pub fn kind(self) -> &'static str {
         match self {
-            Sink::Drop => "drop", Sink::Downcast => "downcast", Sink::DowncastRef => "downcast_ref", Sink::MutMoveB => "mutate+move",
+            Sink::Drop => "drop", Sink::Downcast => "downcast", Sink::DowncastRef => "downcast_ref", Sink::DowncastUnchecked => "downcast_unchecked", Sink::MutMoveB => "mutate+move",
             Sink::PushB => "push-other", Sink::InsertB0 => "insert-other", Sink::SwapW => "swap-wrapper", Sink::SwapRaw => "swap-raw",
             Sink::LazyB(_) => "lazy-clone", Sink::Forget => "forget",
         }
